@@ -32,6 +32,8 @@ BOUNDS = {"quick": dict(n=300, maxwin=24), "thorough": dict(n=1500, maxwin=40)}
 
 
 def check_case(case, rec):
+    if case.get("free_only"):
+        return c12.check_free_only(case, rec)
     run = pipeline.run_pipeline(case, scheduled=True)
     try:
         c12.judge_threads(run, case)
@@ -47,7 +49,9 @@ def check_case(case, rec):
             aw = pipeline.audio.window_arg(B, sr)
             rd = None
             if aw == B / sr:  # a reader whose block duration is exactly the window used by the worker
-                rd = auditok.AudioReader(run.data, block_dur=aw, sampling_rate=sr, sample_width=sw, channels=ch)
+                hop_, _m, _v = pipeline.reader_options(case)
+                rd = auditok.AudioReader(run.data, block_dur=aw, sampling_rate=sr, sample_width=sw, channels=ch,
+                                         **({} if hop_ is None else {"hop_dur": hop_ / sr}))
             if rd is not None:
                 joined = auditok.split_and_join_with_silence(
                     rd, run.join_sil, energy_threshold=run.thr, use_channel=case["audio"].get("uc"),
@@ -98,6 +102,11 @@ def explicit_cases():
          "observers": ["joiner"], "join_sil": [2, 0], "choices": []},
         {"audio": a, "win": [1, 4, 1, True, False], "saver": {"cache": 100.0}, "observers": ["rec", "regsave"],
          "tmpl": "r{id}", "ext": "wav", "choices": [3] * 60 + [1] * 60},
+        {"audio": a, "win": [2, 4, 1, False, False], "saver": {"cache": 0.03, "ext": ".raw"}, "observers": ["joiner"],
+         "joiner_ext": ".raw", "join_sil": [1, 0], "stale_tmp": True, "choices": [0, 1, 2, 3] * 30},
+        {"audio": dict(a, B=1, sr=10, ch=1, sw=1, al=60, pat="10" * 4200, tail=[0, 0]), "win": [1, 1, 0, False, False],
+         "saver": {"cache": 5.0}, "observers": ["regsave", "joiner"], "tmpl": "r{id}", "ext": "raw", "join_sil": [1, 0],
+         "choices": [], "free_only": True},
     ]
 
 
